@@ -307,6 +307,7 @@ def gen_market(rng, idx, knobs=None, t0=None, event_id=None):
         if j in removals and removals[j] not in removed and len(removed) < n_runners - 1:
             s = removals[j]
             rm = runners[s]
+            own_af = rm.af
             rm.status = "REMOVED"
             if not has_factors:
                 rm.af = None
@@ -314,6 +315,11 @@ def gen_market(rng, idx, knobs=None, t0=None, event_id=None):
                 rm.af = removal_af[s]
             else:
                 rm.af = rng.choice([0.0, 1.0, 2.49, 2.5, 2.51, 10.0, 33.3, 60.0, rm.af])
+            if has_factors:
+                # factors of one market are consistent: removed factor + any other runner's factor <= 100
+                others = [runners[x].af for x in sels if x != s and runners[x].af is not None]
+                if others and rm.af is not None and rm.af > 99.0 - max(others):
+                    rm.af = min(own_af, r2(99.0 - max(others))) if own_af is not None else r2(max(0.0, 99.0 - max(others)))
             removed.add(s)
             state["ver"] += 1
             if rng.random() < 0.5 and state["st"] == "OPEN":
